@@ -80,6 +80,7 @@ func runOne(sc Scenario, prefix []int) (e *sched.Exec, class, fail string) {
 	if sc.Starts2 != nil {
 		lists = append(lists, [2][]int{sc.Starts2, sc.Ends2})
 	}
+	regions.VerifResetPools()
 	var idxs []*regions.Index
 	var given [][2][]int
 	for _, l := range lists {
@@ -347,10 +348,52 @@ func scenarios(tier string, emit func(Scenario) bool) {
 			}
 		}
 	}
+	// Deep pieces: many intervals covering ONE position (duplicates and nested ones). A code path that At
+	// takes only for pieces listing more than some number of intervals (sorted lazily, stored differently)
+	// is never entered by the other families, whose pieces list at most three.
+	deep := func(shape []int) {
+		total := 0
+		for _, n := range shape {
+			total += n
+		}
+		for _, n := range []int{16, 17, 32, 33, 64, 65, 66, 130} {
+			sc := Scenario{Starts: []int{}, Ends: []int{}}
+			for i := 0; i < n; i++ {
+				sc.Starts, sc.Ends = append(sc.Starts, (i*7)%3), append(sc.Ends, 4+(i*5)%2) // all cover 2 and 3
+			}
+			menu := []int{0, 2, 3}
+			pos := make([]int, total)
+			for ok {
+				sc.Progs = nil
+				k := 0
+				for _, m := range shape {
+					var pr []int
+					for _, x := range pos[k : k+m] {
+						pr = append(pr, menu[x])
+					}
+					sc.Progs = append(sc.Progs, pr)
+					k += m
+				}
+				if ok = emit(sc); !ok {
+					return
+				}
+				i := total - 1
+				for i >= 0 && pos[i] == len(menu)-1 {
+					pos[i] = 0
+					i--
+				}
+				if i < 0 {
+					break
+				}
+				pos[i]++
+			}
+		}
+	}
 	// simplest first: fewer calls, fewer goroutines
 	single([]int{1, 1})
 	double([]int{1, 1})
 	large([]int{1, 1})
+	deep([]int{1, 1})
 	single([]int{2, 1})
 	double([]int{2, 1})
 	large([]int{2, 1})
@@ -424,9 +467,10 @@ func main() {
 				if fail != "" && !failed {
 					// determinism gate: the same schedule must fail the same way twice more
 					c := Case{sc, slices.Clone(e.Choices)}
-					_, _, f2 := runOne(sc, c.Schedule)
-					_, _, f3 := runOne(sc, c.Schedule)
-					if f2 == fail && f3 == fail {
+					// (the same KIND of failure: what a wrong answer contains may legitimately vary, e.g. with map order)
+					_, c2, f2 := runOne(sc, c.Schedule)
+					_, c3, f3 := runOne(sc, c.Schedule)
+					if f2 != "" && f3 != "" && c2 == class && c3 == class {
 						failed = true
 						if len(sum.Violations) < 8 {
 							sum.Violations = append(sum.Violations, Violation{c, fail + "; schedule:" + describe(e)})
